@@ -1,6 +1,7 @@
 import CppUModel.Proofs.JUnitLoop
 import CppUModel.Proofs.JUnitBehaviours
 import CppUModel.Proofs.JUnitRead
+import CppUModel.Proofs.JUnitRepeat
 /-!
 # C16 — the JUnit report is well-formed XML and faithful to the run
 
@@ -233,6 +234,34 @@ theorem group_without_running_tests (package timeString : Bytes) (flt : Option F
   have h0 : castInt 0 = 0 := by decide
   simp [reports, runAll, loop, startEvs, bodyEvs, endEvs, endOfGroup, h, reportsFrom_cons, reportsFrom_nil, reportsOf, step,
     reportOf, suiteOf, casesOf, createFileName_eq_expected, h0, bodyR, countFiltered, countTest]
+
+/-! ## repeated runs (`-r<n>`) on one `JUnitTestOutput` -/
+
+/-- (4) Every repetition writes the same report files again, in the same order — the names depend only on
+    package, groups and filter, not on what the previous repetition left in the collector.  (The code opens
+    them with mode "w", so on a file system each repetition replaces the reports of the one before;
+    the harness checks the mode.) -/
+theorem repeated_runs_rewrite_each_report (package timeString : Bytes) (n : Nat) (flt : Option Filter) (tests : List Script) :
+    (files package timeString (runRepeated n flt tests)).map (·.name) =
+      (List.range n).flatMap (fun _ => loopNames flt package [] tests) := by
+  have h := (repetitions_state flt tests n n { package := package, timeString := timeString } ⟨rfl, rfl, rfl⟩).1
+  rw [document_shape, List.map_map]
+  exact h
+
+/-- … and in every repetition there is one test case element per test that runs, in run order, with
+    the same name, file, line, skipped marker and first failure. -/
+theorem one_testcase_per_test_in_order_repeated (package timeString : Bytes) (n : Nat) (flt : Option Filter)
+    (tests : List Script) :
+    (reports package timeString (runRepeated n flt tests)).flatMap reportKeys =
+      (List.range n).flatMap (fun _ => (tests.filter fun t => shouldRun flt t.info).map scriptKey) :=
+  (repetitions_state flt tests n n { package := package, timeString := timeString } ⟨rfl, rfl, rfl⟩).2.1
+
+/-- What IS carried from one repetition into the next: the captured output (`captured_output_accumulates`
+    holds for any event list; the runner's own "Test run i of n" line reaches it without its numbers, because
+    `print(size_t)` does nothing on this output) and the check-count offset `totalCheckCount_`, which is
+    why the `assertions` attribute of a later repetition can be negative. -/
+theorem test_run_line_without_numbers (n : Nat) (hn : n > 1) : testRunText n = lit "Test run  of \n" := by
+  simp [testRunText, hn]; decide
 
 /-! ## reading a whole report back -/
 
